@@ -1,5 +1,5 @@
 """Per-property policy: which rules decide which clause, floors, scope, wording for the evidence."""
-from . import rules_conv, rules_table, rules_codec, rules_layout, rules_effect, rules_path, rules_reply, rules_cow, rules_node, rules_ref
+from . import rules_conv, rules_table, rules_codec, rules_layout, rules_effect, rules_path, rules_reply, rules_cow, rules_node, rules_ref, rules_ident, rules_traits
 
 import json, os
 
@@ -222,6 +222,68 @@ PROPS = {
             {"run": rules_ref.run_refreplace, "floor": 3, "use_anchor_files": True},
             {"run": rules_path.run_uaf, "floor": 3, "use_anchor_files": True},
             {"run": rules_path.run_nullcontra, "floor": 30, "use_anchor_files": True},
+        ],
+    },
+    "C16": {
+        "explanation": "IDENTOVERLAY: struct layout (_base directly follows _val[4]) is read from the record; trace partitioning on 'content possibly longer than 4 bytes was written "
+                       "at X->_val': no read of X->_base in such a state until _base is assigned; every read of _base that follows the pointer is under the discriminant "
+                       "X->_len > X->_max (conditional-operator arm or dominating branch). NARROW: interval of every value stored to identifier._len (u16) / _max (u8) lies in "
+                       "the field range (null-test partitions + copy relations x = y + c). ALLOCPOLARITY, NULLCONTRA (incl. NULL handed to memcpy/strlen), UAF, OBJSIZE on the anchor files.",
+        "not_decided": "read-back equality and comparison results per length; leak freedom on every path",
+        "assumptions": [],
+        "technique": "layout facts from the record + typestate (overlay) with trace partitioning + dominator check of the storage discriminant + interval analysis of narrow stores",
+        "level_text": "Decides the storage discipline of the inline/external overlay for all functions touching identifier._val/_base (23 reads/writes) on every path.",
+        "level_note": "identity comparisons of _base (address-type identifiers in mpt_node_locate) are not content reads",
+        "rules": [
+            {"run": rules_ident.run_identoverlay, "floor": 15},
+            {"run": rules_ident.run_narrow, "floor": 3, "use_anchor_files": True, "ctx": {"records": ["mpt_identifier", "identifier"]}},
+            {"run": rules_path.run_allocpolarity, "floor": 1, "use_anchor_files": True},
+            {"run": rules_path.run_nullcontra, "floor": 10, "use_anchor_files": True},
+            {"run": rules_path.run_uaf, "floor": 1, "use_anchor_files": True},
+            {"run": rules_path.run_objsize, "floor": 3, "use_anchor_files": True},
+        ],
+    },
+    "C05": {
+        "explanation": "TRAITS: every static type_traits initialiser (41 incl. the C++ type_properties pattern) pairs init with fini and states the size of the type its init/fini "
+                       "bodies cast the element to. FINILOOP: element loops calling traits->init/fini (found through the call via those fields) pass `payload + index` with the "
+                       "range offset applied once. DEADFINI: where a function gives 'bound == 0' a meaning of its own, the used length of the loop's buffer is not changed in that "
+                       "path class (trace partition on bound == 0). DETACHCOPY: detach implementations copy a still-shared source through mpt_buffer_set (element copy), raw "
+                       "memcpy only on the relocating path. USEDNOTSIZE: element counts come from _used. BUFMIX: mutators get lengths of their own buffer. UAF and ALLOCPOLARITY "
+                       "(init callbacks) on the anchor files.",
+        "not_decided": "exact-once along arbitrary histories with failing constructors (needs a live-set); SHRINKFINI for arbitrary assignments lowering _used (only the bound==0 form is decided)",
+        "assumptions": [],
+        "technique": "static table check + loop shape analysis (element address normal form) + trace-partitioned interval analysis + vtable-resolved dominator checks",
+        "level_text": "Pairing clauses of 'finalised exactly once': what is constructed has a destructor of the right size, destructor loops address exactly the element range, and "
+                      "the one place where a length parameter switches meaning cannot drop elements unfinalised.",
+        "level_note": "destructor-only traits of non-copyable C++ unique arrays are accepted (noted in evidence)",
+        "rules": [
+            {"run": rules_traits.run_traits, "floor": 20},
+            {"run": rules_traits.run_finiloop, "floor": 6},
+            {"run": rules_traits.run_deadfini, "floor": 3},
+            {"run": rules_traits.run_detachcopy, "floor": 2},
+            {"run": rules_path.run_usednotsize, "floor": 20},
+            {"run": rules_path.run_bufmix, "floor": 1},
+            {"run": rules_path.run_uaf, "floor": 3, "use_anchor_files": True},
+            {"run": rules_path.run_allocpolarity, "floor": 3, "use_anchor_files": True},
+        ],
+    },
+    "C10": {
+        "explanation": "NARROW: every store to path.first (u8) in the anchor files has a value interval inside the field (the 0 = 'search separator' escape counts). USEDNOTSIZE / "
+                       "BUFMIX on the config item arrays. CONVDEST on mpt_config_get/convert callers. REFREPLACE in mpt_meta_set. NULLCONTRA, UAF, OBJSIZE on the anchor files. "
+                       "(COWGUARD/STALE on the path_* buffer helpers is part of the C04 check; the config item arrays are unique, never shared, and out of its scope.)",
+        "not_decided": "map semantics over assign/remove/query histories; longest-prefix lookup results",
+        "assumptions": [],
+        "technique": "interval analysis of narrow stores with null-test partitions; table and typestate rules shared with C04/C05/C15",
+        "level_text": "Decides the path-element clause (element lengths across the 255 limit are rejected or escaped) and memory-discipline necessary conditions of the store.",
+        "level_note": "",
+        "rules": [
+            {"run": rules_ident.run_narrow, "floor": 4, "use_anchor_files": True, "ctx": {"records": ["mpt_path", "path"]}},
+            {"run": rules_path.run_usednotsize, "floor": 2, "use_anchor_files": True},
+            {"run": rules_path.run_bufmix, "floor": 1},
+            {"run": rules_layout.run_convdest, "floor": 60, "scope": "anchors"},
+            {"run": rules_ref.run_refreplace, "floor": 1, "use_anchor_files": True},
+            {"run": rules_path.run_nullcontra, "floor": 20, "use_anchor_files": True},
+            {"run": rules_path.run_uaf, "floor": 1, "use_anchor_files": True},
         ],
     },
 }
